@@ -35,7 +35,10 @@ def extract(p: dict) -> None:
             with m:
                 del seen[:]
                 con.table = ([cmd, b"0", b"4"], b"crc32 for 00000000 ... 00000003 ==> 2144df1c\n", 0)
-                m.exec(cmd.decode(), "0", "4")
+                try:
+                    m.exec(cmd.decode(), "0", "4")
+                except Exception:   # only the prompt the call waited for is of interest here
+                    pass
         ov = [x for x in seen if x is not None]
         return ov[0] if ov else None
 
